@@ -65,6 +65,26 @@ for with_c, kls in ((True, 'LTI'), (False, 'LTI'), (True, 'LTV'), (False, 'LTV')
     mk()
 
 
+@obligation('C15.LTI.size_one_axes', functions=[f'{DYN}:LTI.state_transition', f'{DYN}:LTI.observation', 'pypose.function.linalg:bmv'], max_paths=8)
+def lti_size_one(env):
+    """systems with an axis of size one - ONE state, ONE output, a batch of ONE: the batched equations hold per batch item and the results keep
+    their documented shapes (batch axes, then the state / output axis) - a squeeze that is not told which axis to drop goes wrong exactly here"""
+    dyn = env.load(DYN); la = env.load('pypose.function.linalg'); T = env.T
+    def stackm(name, B, r, c): return T.stack([M(env, f'{name}{b}_', r, c) for b in range(B)], 0)
+    def stackv(name, B, n): return T.stack([env.vec(f'{name}{b}_', n) for b in range(B)], 0)
+    for tag, B, n, q in (('batch of 2, one state, one output', 2, 1, 1), ('batch of 2, two states, one output', 2, 2, 1), ('batch of 1, two states', 1, 2, 2)):
+        k = tag.split(',')[0][-1] + str(n) + str(q)
+        A_, B_, C_, D_ = stackm('A' + k, B, n, n), stackm('B' + k, B, n, 1), stackm('C' + k, B, q, n), stackm('D' + k, B, q, 1)
+        c1, c2 = stackv('c' + k, B, n), stackv('e' + k, B, q)
+        x, u = stackv('x' + k, B, n), stackv('u' + k, B, 1)
+        z, y = dyn.LTI(A_, B_, C_, D_, c1, c2)(x, u)
+        ez = T.stack([A_[b] @ x[b] + B_[b] @ u[b] + c1[b] for b in range(B)], 0); ey = T.stack([C_[b] @ x[b] + D_[b] @ u[b] + c2[b] for b in range(B)], 0)
+        env.holds(f'{tag}: shapes are (batch, states) and (batch, outputs)', tuple(z.shape) == (B, n) and tuple(y.shape) == (B, q))
+        if tuple(z.shape) == (B, n) and tuple(y.shape) == (B, q):
+            env.eq(f'{tag}: next state per batch item', z, ez); env.eq(f'{tag}: observation per batch item', y, ey)
+        env.holds(f'{tag}: bmv keeps the batch axis', tuple(la.bmv(A_, x).shape) == (B, n))
+
+
 @obligation('C15.System.time', functions=[f'{DYN}:System.reset', f'{DYN}:System.systime', f'{DYN}:System.forward_hook', f'{DYN}:LTV.set_refpoint'])
 def time_(env):
     """per-operation contracts from a symbolic time value t"""
